@@ -44,6 +44,8 @@ def run_c09(out, exe, tier, res):
                 hcheck.absorb(out, rep2)
             _c09_valgrind(out, exe2, res)
             passes.append("valgrind-memcheck")
+        _c09_miri(out)
+        passes.append("miri")
     out.coverage_extra["passes"] = passes
 
 
@@ -179,3 +181,52 @@ def run_c10(out, exe, tier, res):
 def run_c08(out, exe, tier, res):
     from . import c08
     c08.run(out, exe, tier, res)
+
+
+def _c09_miri(out):
+    """Pure-Rust paths that handle untrusted text, interpreted by Miri (undefined behaviour, out-of-bounds, invalid pointers
+    in the crate and its pure-Rust dependencies).  ring's C/asm cannot be interpreted: the workload (miri/src/main.rs) only
+    drives ring-free paths.  UB or a panic is a C09 violation; 'unsupported operation' or a build failure is inconclusive."""
+    import shutil
+    w = os.path.join(common.BUILD, "miri")
+    os.makedirs(w, exist_ok=True)
+    toml = open(os.path.join(common.VERIF, "miri", "Cargo.toml.in")).read().replace("@REPO@", common.REPO).replace("@SRC@", os.path.join(common.VERIF, "miri", "src"))
+    p = os.path.join(w, "Cargo.toml")
+    if not os.path.exists(p) or open(p).read() != toml:
+        open(p, "w").write(toml)
+    if not os.path.exists(os.path.join(w, "Cargo.lock")):
+        shutil.copy(common.repo_lockfile(), os.path.join(w, "Cargo.lock"))
+    env = common.offline_env({"MIRIFLAGS": "-Zmiri-disable-isolation", "RUSTFLAGS": "-Awarnings"})
+    b = subprocess.run(["cargo", "+nightly", "miri", "setup"], cwd=w, env=env, capture_output=True, text=True)
+    nsh = 8
+    # build once (first shard compiles), then the shards in parallel
+    procs = []
+    first = subprocess.run(["cargo", "+nightly", "miri", "run", "--offline", "--", "0", str(nsh)], cwd=w, env=env, capture_output=True, text=True, timeout=4 * 3600)
+    outs = [first]
+    for i in range(1, nsh):
+        procs.append(subprocess.Popen(["cargo", "+nightly", "miri", "run", "--offline", "--", str(i), str(nsh)], cwd=w, env=env, stdout=subprocess.PIPE, stderr=subprocess.PIPE, text=True))
+    for pr in procs:
+        try:
+            so, se = pr.communicate(timeout=4 * 3600)
+        except subprocess.TimeoutExpired:
+            pr.kill()
+            out.inconclusive.append("miri shard watchdog fired")
+            continue
+        outs.append(subprocess.CompletedProcess(pr.args, pr.returncode, so, se))
+    calls = 0
+    for i, r in enumerate(outs):
+        m = re.search(r"MIRI-(OK|FAIL) calls=(\d+) ok=(\d+) err=(\d+) panics=(\d+)", r.stdout or "")
+        if "Undefined Behavior" in (r.stderr or ""):
+            blk = r.stderr[r.stderr.index("Undefined Behavior") - 200:][:2500]
+            out.violation("C09 miri-undefined-behaviour", "Miri reports undefined behaviour while handling untrusted token text:\n" + blk, {"cmd": "C09", "note": "miri shard %d/%d" % (i, nsh), "report": blk})
+        elif m is None:
+            why = "unsupported operation" if "unsupported operation" in (r.stderr or "") else "no summary line"
+            out.inconclusive.append("miri shard %d: %s: %s" % (i, why, (r.stderr or "")[-400:]))
+        else:
+            calls += int(m.group(2))
+            for l in (r.stdout or "").splitlines():
+                if l.startswith("MIRI-PANIC"):
+                    out.violation("C09 miri-panic", "under Miri: " + l, {"cmd": "C09", "note": "miri shard %d/%d" % (i, nsh), "line": l})
+    out.evaluations += calls
+    out.coverage_extra["miri_calls_interpreted"] = calls
+    out.coverage_extra["miri_scope"] = "ring-free paths only: v2.local decrypt, v2/v4.public verify at all layers in full; other protocols up to the first ring call (3-segment inputs rejected before crypto); Key::<N>::try_from(&str)"
